@@ -324,6 +324,8 @@ Fixpoint db_fold_aux (d : db) (ix : index) : db * (list (bytes * bytes) + eerr) 
     end
   end.
 Definition db_fold (d : db) := db_fold_aux d (d_index d).
+(* Fold with a callback that returns false at its n-th invocation: the first n items are read and delivered *)
+Definition db_fold_n (d : db) (n : nat) := db_fold_aux d (firstn n (d_index d)).
 
 (* Stat: KeyNum, DataFileNum, ReclaimableSize, DiskSize *)
 Definition db_stat (d : db) : N * N * N * N :=
